@@ -3,6 +3,7 @@
 package main
 
 import (
+	"bytes"
 	"context"
 	"encoding/binary"
 	"errors"
@@ -255,6 +256,30 @@ func bigMsg(id uint16, target int, seed uint64) *dns.Msg {
 		i++
 	}
 	return m
+}
+
+// runUnpack: one frame whose payload is gen_bytes(n, seed) (optionally forced to look like a DNS header with
+// absurd counts) goes through dnsutils.ReadMsgFromTCP, the entry point of the TCP and DoQ servers.
+func runUnpack(w *hx.Writer, id string, n int, seed uint64) {
+	payload := hx.GenBytes(n, seed)
+	parses := new(dns.Msg).Unpack(payload) == nil
+	frame := make([]byte, 2+n)
+	binary.BigEndian.PutUint16(frame, uint16(n))
+	copy(frame[2:], payload)
+	res := 1
+	func() {
+		defer func() {
+			if recover() != nil {
+				res = 2
+			}
+		}()
+		m, _, err := dnsutils.ReadMsgFromTCP(bytes.NewReader(frame))
+		if err == nil && m != nil {
+			res = 0
+		}
+	}()
+	w.Emit("unpack", hx.Case{ID: id, Coq: hx.App("CUnpack", hx.Ni(n), hx.N(seed), hx.Bool(parses), hx.Ni(res)),
+		Desc: map[string]any{"kind": "unpack", "len": n, "parses": parses, "result": res}})
 }
 
 func runPack(w *hx.Writer, id string, target int, seed uint64) {
@@ -547,6 +572,23 @@ func main() {
 		id := fmt.Sprintf("cat:pack:%d", n)
 		if o.Want(id) {
 			runPack(w, id, n, uint64(n))
+		}
+	}
+
+	// framed garbage through the unpacking reader: every payload length from below the header up to 80 bytes
+	// (pooled buffers have capacities 15, 31, 63, 127: whatever slices them blindly shows here), some larger
+	for l := 0; l <= 80; l++ {
+		for k := 0; k < 2; k++ {
+			id := fmt.Sprintf("cat:unpack:%d:%d", l, k)
+			if o.Want(id) {
+				runUnpack(w, id, l, uint64(1000*k+l))
+			}
+		}
+	}
+	for _, l := range []int{127, 128, 255, 256, 511, 512, 1000, 4095, 4096} {
+		id := fmt.Sprintf("cat:unpack:%d:0", l)
+		if o.Want(id) {
+			runUnpack(w, id, l, uint64(l))
 		}
 	}
 
